@@ -124,6 +124,21 @@ func (r *runner) runChain(seed uint64) {
 		var names []string
 		forEachTamper(mk(), func(name string, _ func()) { names = append(names, name) })
 		sort.Strings(names)
+		// what this block's format does not commit to is not a tampering of a committed field: probed separately
+		var uncommitted []string
+		{
+			ref := mk()
+			kept := names[:0:0]
+			for _, n := range names {
+				if committedIn(ref, n) {
+					kept = append(kept, n)
+				} else {
+					uncommitted = append(uncommitted, n)
+				}
+			}
+			names = kept
+			r.c.Hist["not-committed-in-post07-format"] += len(uncommitted)
+		}
 		for fi, fo := range fols {
 			be := backendName(fo.newState)
 			sel := r.selectTampers(names, seed+uint64(i)*7+uint64(fi))
@@ -146,10 +161,6 @@ func (r *runner) runChain(seed uint64) {
 					t := mk()
 					if carvedOut(t, name) {
 						r.c.Hist["carved-out:0.13.2-empty-vs-zero-signature"]++
-						continue
-					}
-					if !committedIn(t, name) {
-						r.c.Hist["not-committed-in-post07-format"]++
 						continue
 					}
 					applied := false
@@ -215,6 +226,7 @@ func (r *runner) runChain(seed uint64) {
 		}
 		if r.only == nil {
 			r.probes(valid, mk, fols)
+			r.uncommittedProbes(valid, mk, fols, uncommitted)
 		}
 		valid = append(valid, mk)
 		parent = f.Hash
@@ -288,7 +300,7 @@ func tamperKind(name string) string {
 // carvedOut: the one single-field change that the 0.13.2 format maps to the same leaf by design of the
 // protocol (empty signature hashed as [0]): [0] -> [] is not a tampering of a committed value there.
 func carvedOut(b *Built, name string) bool {
-	if b.Block.ProtocolVersion >= "0.13.4" || b.Block.ProtocolVersion < "0.13.2" {
+	if vge(b.Block.ProtocolVersion, 0, 13, 4) || !vge(b.Block.ProtocolVersion, 0, 13, 2) {
 		return false
 	}
 	var idx int
